@@ -146,6 +146,9 @@ def strip_mod(expr, m):
     if isinstance(e, ast.BinOp) and isinstance(e.op, ast.Mod) and isinstance(e.right, ast.Constant) \
             and e.right.value == m:
         return e.left, True
+    if isinstance(e, ast.BinOp) and isinstance(e.op, ast.BitAnd) and isinstance(e.right, ast.Constant) \
+            and e.right.value == m - 1 and m in (2, 4):
+        return e.left, True           # x & (m - 1) is x % m for a power of two (two's complement: also for negative x)
     return e, False
 
 
@@ -168,13 +171,37 @@ def find_sites(f):
             continue
         inner, reduced = strip_mod(st.value, 2)
         inner = strip_shape(inner)
-        if not (isinstance(inner, ast.BinOp) and isinstance(inner.op, ast.Add)):
+        if isinstance(inner, ast.BinOp) and isinstance(inner.op, ast.BitXor):
+            reduced = True        # a ^ b on bit arrays is (a + b) % 2
+        elif not (isinstance(inner, ast.BinOp) and isinstance(inner.op, ast.Add)):
             continue
         a, ma = split_factor(inner.left)
         b, mb = split_factor(inner.right)
         if string_kind(a) is None or string_kind(b) is None:
             continue
         sites.append(Site(f, st, ctx, tgt, a, b, ma or mb, reduced))
+    # a product written directly into a constructor call: Pauli(g1 ^ g2, <phase>) is `g = g1 ^ g2; p = <phase>`
+    for st, ctx in walk(f.node):
+        if isinstance(st, (ast.If, ast.For, ast.While, ast.With, ast.Try, ast.FunctionDef)):
+            continue
+        for c in ast.walk(st):
+            if not (isinstance(c, ast.Call) and isinstance(c.func, ast.Name) and c.func.id in ('Pauli', 'PauliMonomial') and len(c.args) >= 2):
+                continue
+            inner, reduced = strip_mod(c.args[0], 2)
+            inner = strip_shape(inner)
+            if isinstance(inner, ast.BinOp) and isinstance(inner.op, ast.BitXor):
+                reduced = True
+            elif not (isinstance(inner, ast.BinOp) and isinstance(inner.op, ast.Add)):
+                continue
+            a, ma = split_factor(inner.left)
+            b, mb = split_factor(inner.right)
+            if string_kind(a) is None or string_kind(b) is None:
+                continue
+            g_st = ast.copy_location(ast.Assign(targets=[ast.Name(id='g', ctx=ast.Store())], value=c.args[0]), c)
+            p_st = ast.copy_location(ast.Assign(targets=[ast.Name(id='p', ctx=ast.Store())], value=c.args[1]), c)
+            site = Site(f, g_st, ctx, g_st.targets[0], a, b, ma or mb, reduced)
+            site.fixed_companion = p_st
+            sites.append(site)
     return sites
 
 
@@ -189,6 +216,13 @@ def ipow_calls(node):
 def find_companion(site):
     """Locate the phase companion of a site in its block (or in the `if` just before it)."""
     want = {norm(strip_shape(site.a)), norm(strip_shape(site.b))}
+    fixed = getattr(site, 'fixed_companion', None)
+    if fixed is not None:
+        calls = [c for c in ipow_calls(fixed.value) if {norm(strip_shape(c.args[0])), norm(strip_shape(c.args[1]))} == want]
+        if not calls:
+            return None
+        site.companion, site.comp_index, site.comp_call = fixed, site.ctx.index - 1, calls[0]
+        return fixed
     block = site.ctx.block
     cands = []
     for i, st in enumerate(block):
